@@ -99,17 +99,22 @@ func c03Tag(prop string) string {
 		return "font"
 	case "margin-left":
 		return "table"
+	case "text-align":
+		return "p" // the hint of <p align=center> comes from a rule of the presentational hints sheet
 	}
 	return "p"
 }
 
 func c03Gen(t *rapid.T, tier Tier) interface{} {
 	c := &C03Case{}
-	c.Prop = rapid.SampledFrom([]string{"color", "z-index", "margin-left"}).Draw(t, "prop")
+	c.Prop = rapid.SampledFrom([]string{"color", "color", "z-index", "z-index", "margin-left", "margin-left", "text-align"}).Draw(t, "prop")
 	c.Hints = rapid.Bool().Draw(t, "hints")
 	c.Layout = rapid.IntRange(0, 9).Draw(t, "layout") == 0
 	sels := c03Selectors(c03Tag(c.Prop))
 	n := rapid.IntRange(2, 6).Draw(t, "ndecl")
+	if c.Prop == "text-align" && n > 4 {
+		n = 4 // one keyword per declaration
+	}
 	tieMode := rapid.IntRange(0, 3).Draw(t, "tie") // 0,1: free; 2: same origin+importance; 3: also same specificity
 	var base C03Decl
 	hintUsed, attrImportantSeen := false, false
@@ -163,7 +168,7 @@ func c03Gen(t *rapid.T, tier Tier) interface{} {
 		if c.Prop == "margin-left" && d.Carrier != "hint" {
 			d.Shorthand = rapid.IntRange(0, 2).Draw(t, "short") == 0
 		}
-		if (d.Carrier == "nested-amp" || d.Carrier == "nested-desc") && rapid.Bool().Draw(t, "own") {
+		if (d.Carrier == "nested-amp" || d.Carrier == "nested-desc") && c.Prop != "text-align" && rapid.Bool().Draw(t, "own") {
 			d.OwnValue = 100 + d.Value
 		}
 		if i == 0 {
@@ -174,8 +179,13 @@ func c03Gen(t *rapid.T, tier Tier) interface{} {
 	return c
 }
 
+// text-align: the keyword of declaration number v (0 = the initial value, 5 = the value of the hint)
+var c03Aligns = []string{"start", "left", "right", "justify", "end", "center"}
+
 func c03ValueText(prop string, v int, shorthand bool) (name, val string) {
 	switch prop {
+	case "text-align":
+		return "text-align", c03Aligns[v]
 	case "color":
 		return "color", fmt.Sprintf("rgb(%d, 0, 0)", v)
 	case "z-index":
@@ -292,9 +302,15 @@ func c03Build(c *C03Case) (doc string, opts wr.Opts, cands []c03Cand) {
 				hintAttr = fmt.Sprintf(` color="#%02x0000"`, d.Value)
 			case "margin-left":
 				hintAttr = fmt.Sprintf(` hspace="%d"`, d.Value)
+			case "text-align":
+				hintAttr = ` align="center"`
 			}
 			if c.Hints {
-				add(d, d.Value, false, [3]int{0, 0, 0}, -1, false, "hint")
+				v := d.Value
+				if c.Prop == "text-align" {
+					v = 5
+				}
+				add(d, v, false, [3]int{0, 0, 0}, -1, false, "hint")
 			}
 			continue
 		}
@@ -359,6 +375,14 @@ func c03Build(c *C03Case) (doc string, opts wr.Opts, cands []c03Cand) {
 
 func c03Observe(style pr.ElementStyle, prop string) (int, string) {
 	switch prop {
+	case "text-align":
+		ta := string(style.GetTextAlignAll())
+		for i, k := range c03Aligns {
+			if k == ta {
+				return i, ta
+			}
+		}
+		return -1, ta
 	case "color":
 		col := style.GetColor()
 		return int(col.RGBA.R*255 + 0.5), fmt.Sprintf("%v", col)
